@@ -185,10 +185,21 @@ func DeriveKey(context string, material []byte, out []byte) {
 	}
 	for blk := 0; blk*32 < len(out); blk++ {
 		if blk*32+8 <= len(out) {
-			Put64(out[blk*32:], UF64("blake3_derive", c, m, uint64(blk)))
+			k := UF64("blake3_derive", c, m, uint64(blk))
+			// collision-free: different (context, material, block) give different keys - otherwise
+			// the solver invents executions in which keys of different exchanges coincide
+			for _, d := range derived {
+				Assume(d.out != k || (d.c == c && d.m == m && d.blk == uint64(blk)))
+			}
+			derived = append(derived, derivedKey{c, m, uint64(blk), k})
+			Put64(out[blk*32:], k)
 		}
 	}
 }
+
+type derivedKey struct{ c, m, blk, out uint64 }
+
+var derived []derivedKey
 
 // NewAEADFromKey models chacha20poly1305.New: the cipher is identified by its key.
 func NewAEADFromKey(key []byte) (cipher.AEAD, error) {
